@@ -74,7 +74,7 @@ def strat_fil_case(draw):
     nbits = draw(st.sampled_from(vs.DEPTHS_ALL))
     unit = vs.chan_unit(nbits)
     nchans = unit * draw(st.integers(1, 3))
-    nsamps = draw(st.integers(1, 20))
+    nsamps = draw(st.integers(1, 20)) if draw(st.integers(0, 9)) else draw(st.sampled_from([256, 1024, 4096, 16384, 16385, 32768, 65536]))
     dtype = draw(st.sampled_from(DTYPES))
     nchunks = draw(st.integers(1, min(3, nsamps)))
     cuts = sorted(draw(st.lists(st.integers(1, nsamps - 1), min_size=nchunks - 1, max_size=nchunks - 1, unique=True))) if nchunks > 1 else []
@@ -205,9 +205,14 @@ def check_fil(case, ctx, d=None, name="out.fil", step=0):
 
 # ------------------------------------------------------------------ (b) block.to_file
 
+SPECIAL_N = [255, 256, 257, 1023, 1024, 1025, 4096, 8192, 16383, 16384, 16385, 32768, 49152, 65536, 65537, 131072]
+
+
 @st.composite
 def strat_block_case(draw):
-    return {"nchans": draw(st.integers(1, 8)), "nsamps": draw(st.integers(1, 24)),
+    big = draw(st.integers(0, 5)) == 0  # a length that is special for an implementation that writes in internal blocks
+    return {"nchans": draw(st.integers(1, 2)) if big else draw(st.integers(1, 8)),
+            "nsamps": draw(st.sampled_from(SPECIAL_N)) if big else draw(st.integers(1, 24)),
             "seed": draw(st.integers(0, 2**31 - 1)), "meta": draw(meta),
             "float_kind": draw(st.sampled_from(["int", "any"])), "in_nbits": draw(st.sampled_from([8, 32])),
             "stem": draw(st.integers(0, 4))}
@@ -264,7 +269,7 @@ def check_block(case, ctx):
 
 @st.composite
 def strat_ts_case(draw):
-    return {"n": draw(st.integers(1, 64)), "seed": draw(st.integers(0, 2**31 - 1)), "meta": draw(meta),
+    return {"n": draw(st.one_of(st.integers(1, 64), st.integers(1, 64), st.sampled_from(SPECIAL_N))), "seed": draw(st.integers(0, 2**31 - 1)), "meta": draw(meta),
             "float_kind": draw(st.sampled_from(["int", "any"])), "fmt": draw(st.sampled_from(["tim", "dat"])),
             "nchunks": 1, "stem": draw(st.integers(0, len(STEMS) - 1))}
 
@@ -318,7 +323,7 @@ def check_ts(case, ctx):
 
 @st.composite
 def strat_fs_case(draw):
-    return {"nbins": draw(st.integers(1, 40)), "seed": draw(st.integers(0, 2**31 - 1)), "meta": draw(meta),
+    return {"nbins": draw(st.one_of(st.integers(1, 40), st.integers(1, 40), st.sampled_from(SPECIAL_N))), "seed": draw(st.integers(0, 2**31 - 1)), "meta": draw(meta),
             "float_kind": draw(st.sampled_from(["int", "any"])), "fmt": draw(st.sampled_from(["spec", "fft"])),
             "stem": draw(st.integers(0, len(STEMS) - 1))}
 
